@@ -117,14 +117,48 @@ def coqc_file(path, timeout=600, cwd=None):
     return rc, out
 
 
-def audit_sources():
-    """grep the development for anything that would make a 'proof' meaningless."""
-    problems = []
-    for d, _, files in os.walk(COQ):
-        for f in files:
-            if not f.endswith(".v"):
+def dependency_closure(targets):
+    """.v files (relative to coq/) that the given .vo targets depend on, transitively, read
+    from the dependency file coq_makefile maintains (coq/.Makefile.d)."""
+    deps = {}
+    path = os.path.join(COQ, ".Makefile.d")
+    if os.path.exists(path):
+        for line in open(path):
+            if ":" not in line:
                 continue
-            p = os.path.join(d, f)
+            lhs, rhs = line.split(":", 1)
+            outs = lhs.split()
+            if not outs or not outs[0].endswith(".vo"):
+                continue
+            deps[outs[0]] = [x for x in rhs.split() if x.endswith(".vo")]
+    seen, todo = set(), list(targets)
+    while todo:
+        t = todo.pop()
+        if t in seen:
+            continue
+        seen.add(t)
+        todo.extend(deps.get(t, []))
+    return sorted(x[:-1] for x in seen)          # Foo.vo -> Foo.v
+
+
+def audit_sources(targets=None):
+    """grep the development for anything that would make a 'proof' meaningless.
+
+    With `targets` (a list of .vo files) only their dependency closure is audited: that is
+    exactly what the theorems of those targets rest on; other files in coq/ (work in progress
+    of other properties) cannot affect them."""
+    problems = []
+    if targets is not None:
+        files_to_check = [os.path.join(COQ, f) for f in dependency_closure(targets)]
+    else:
+        files_to_check = []
+        for d, _, files in os.walk(COQ):
+            files_to_check += [os.path.join(d, f) for f in files if f.endswith(".v")]
+    for p in files_to_check:
+        if not os.path.exists(p):
+            problems.append("%s: missing source of a compiled dependency" % os.path.relpath(p, ROOT))
+            continue
+        for _once in (0,):
             text = open(p, errors="replace").read()
             # strip comments (non-nested handling is enough: we never nest)
             stripped = re.sub(r"\(\*.*?\*\)", "", text, flags=re.S)
@@ -393,8 +427,10 @@ def proof_gate(ctx, extra_targets=()):
         where = "%s:%s" % (m.group(1), m.group(2)) if m else "unknown"
         ctx.obligation("coq build of Properties/%s.vo" % prop, False, where + "\n" + log[-1500:])
         return False
-    problems = audit_sources()
-    ctx.obligation("no Admitted/admit/Axiom/Parameter/unsafe flags in coq/", not problems, "; ".join(problems[:5]))
+    closure_targets = ["Properties/%s.vo" % prop] + list(extra_targets)
+    problems = audit_sources(closure_targets)
+    ctx.obligation("no Admitted/admit/Axiom/Parameter/unsafe flags in the %d files the property's theorems depend on"
+                   % len(dependency_closure(closure_targets)), not problems, "; ".join(problems[:5]))
     res = check_property_file(prop, ctx.meta.get("allowed_axioms", ()))
     for name, axs in res["theorems"]:
         ctx.obligation("theorem " + name, True, "closed under the global context" if not axs else "axioms: " + ", ".join(axs))
